@@ -334,6 +334,12 @@ def obligations(tier: str) -> List[Obligation]:
         k = len(obs)
         shape = {'names': n, 'query': q, 'multicast': m, 'order': o, 'flush_sym': [k % 8, (k * 3 + 2) % 8], 'qu': k % 2 == 0}
         obs.append(Obligation(f'roundtrip[{n};{"query" if q else "response"};{"multicast" if m else "unicast"};{o}]', make_roundtrip(shape), 'roundtrip', shape, timeout=300 if tier == 'quick' else 900))
+    # the clause "however name compression and packet splitting fall": two C14 shapes (symbolic rdata lengths, rollback at the
+    # limit, names shared across the split) re-read by the independent reader
+    from . import c14
+
+    for k in ('hinfo-then-names', 'txt-then-shared-name', 'ptr-txt-srv'):
+        obs.append(Obligation(f'split-and-compress[{k}]', c14.make(c14.QUICK[k]), 'split', {'name': k, **c14.QUICK[k]}, timeout=200))
     obs.append(Obligation('label-length', make_label_length({}), 'label-length', {}, timeout=120))
     obs.append(Obligation('pointer', make_pointer({}), 'pointer', {}, timeout=120))
     obs.append(Obligation('character-string', make_charstring({}), 'character-string', {}, timeout=120))
